@@ -43,7 +43,11 @@ def hostile_packet(rng, n_rr=4):
         p["qs"].append({"name": name(), "qtype": rng.choice([1, 16, 255, 12, 33, 253]), "qclass": rng.choice([1, 255]), "uni": rng.chance(1, 3)})
     for _ in range(1 + rng.below(n_rr)):
         t = rng.choice(["TXT", "TXT", "HINFO", "ISDN", "NAPTR", "CAA", "PTR", "SRV", "A", "MX", "SOA", "NSEC", "SVCB", "U", "E", "AAAA", "CNAME"])
-        if t == "TXT":
+        if t == "TXT" and rng.chance(1, 4):
+            whole = rng.choice(["café=1;flag", "k=€uro", "😀=x", "a" * 253 + "é"]).encode()
+            cut = rng.choice([i for i in range(1, len(whole)) if whole[i] & 0xC0 == 0x80])
+            rd = ("T", "TXT", [("L", [(0, whole[:cut][-255:]), (0, whole[cut:])])])
+        elif t == "TXT":
             rd = ("T", "TXT", [("L", [(0, cstr()) for _ in range(1 + rng.below(4))])])
         elif t == "HINFO":
             rd = ("T", "HINFO", [("B", cstr()), ("B", cstr())])
